@@ -40,7 +40,8 @@ def scenario(args):
     exe, seed, tier = args
     import random
     rng = random.Random(f"C13/{seed}")
-    kind = rng.choice(["blackout-long", "blackout-long", "blackout-short", "revoke", "revoke-early", "idle", "idle-consent", "loss"])
+    kind = rng.choice(["blackout-long", "blackout-long", "blackout-short", "revoke", "revoke-early", "idle", "idle-consent", "loss",
+                       "blackout-at-ready"])
     consent = 0 if kind == "idle" else 1
     s = None
     bad = []
@@ -69,6 +70,25 @@ def scenario(args):
             return dict(seed=seed, kind=kind, bad=bad, script=s.script, info=info)
         steps = sc.signalling_steps(rng, cfg)
         sc.deliver_signalling(s, rng, steps)
+        if kind == "blackout-at-ready":
+            # the path dies within a round trip of the pair's selection: before any consent check was ever answered
+            for _ in range(600):
+                s.op("run 5")
+                qa = simlib.parse_q(s.op("q A 1 1")[1]); qb = simlib.parse_q(s.op("q B 1 1")[1])
+                if qa["state"] == "READY" and qb["state"] == "READY":
+                    break
+            if qa["state"] != "READY" or qb["state"] != "READY":
+                return dict(seed=seed, kind=kind, bad=[("setup", f"session did not reach READY: {qa['state']} {qb['state']}")],
+                            script=s.script, info=info)
+            s.op(f"run {rng.choice([0, 0, 3, 40])}")
+            t0 = now_ms(s)
+            direction = rng.choice([("*", "*"), ("A", "B"), ("B", "A")])
+            dur = rng.randint(50000, 90000)
+            s.op(f"net blackout {direction[0]} {direction[1]} {t0} {t0 + dur}")
+            s.op(f"run {dur + 20000}")
+            bad += check_expiry(s, t0, dur, direction, "blackout-long")
+            info.update(direction=direction, dur=dur)
+            return dict(seed=seed, kind=kind, bad=bad, script=s.script, info=info)
         s.op("runidle 30000")
         qa = simlib.parse_q(s.op("q A 1 1")[1]); qb = simlib.parse_q(s.op("q B 1 1")[1])
         if qa["state"] != "READY" or qb["state"] != "READY":
